@@ -19,7 +19,7 @@ RULE = ("nested Struct/Sequence/Array/Prefixed/FixedSized/IfThenElse/Switch shap
         "kind; EVERY truncation offset of every canonical encoding; every named leaf made unbuildable in turn (out-of-range integer, wrong-length bytes, "
         "bytes for a string, unencodable string, unknown label, wrong element count); LazyStruct records truncated inside the length/count fields they must read; the member whose byte extent contains the cut must lie on the chain of the member that "
         "performs the read; a build failure that is no ConstructError is a violation; every named leaf made unsizable in turn (inherently, or through each "
-        "context-dependent parameter slot with the entry absent - reached via this.key, a callable with attribute access, a callable with item access). non-trivial = a failure at "
+        "context-dependent parameter slot with the entry absent - reached via this.key, a callable with attribute access, a callable with item access); explicit cases: sources that cannot tell or seek, negative lengths, reused named objects, the AlignedStruct macro (every cut incl. alignment padding, build, sizeof) and explicit Errors inside Select / Optional alternatives in both directions. non-trivial = a failure at "
         "depth >= 2; distinct by (shape, operation, failing member)")
 ASSUMPTIONS = ["only ConstructError subclasses carry a path; failures that legitimately raise other exceptions (KeyError for a missing dict key) are not provoked"]
 REQUIRED_ANCHORS = ["core:ConstructError.__init__", "core:Renamed._parse", "core:Renamed._build", "core:Renamed._sizeof", "core:stream_read", "core:Construct.parse_stream",
